@@ -73,6 +73,13 @@ def gen_case(rng, tier):
                 st = g.insert(nrows=rng.choice([1, 2, 5, 9])) if rr < 0.6 else g.update() if rr < 0.8 else g.delete()
             evs.append(("sql_stmt", st))
             evs.append(("read", sorted(g.tables)[:4]))
+            if g.tables and rng.random() < 0.12:
+                # re-select the current database under another spelling right after a write (names are
+                # case-insensitive), then write again: contents and the ability to accept rows must be intact
+                other = cur.upper() if cur != cur.upper() and rng.random() < 0.7 else cur.capitalize()
+                evs.append(("use", other))
+                evs.append(("sql_stmt", g.insert(nrows=rng.choice([1, 2, 9]))))
+                evs.append(("read", sorted(g.tables)[:4]))
     # finally visit every database once more after a restart
     evs.append(("restart", False))
     for d in created:
